@@ -282,3 +282,84 @@ func VerifH_C07_errBurst() {
 	verifAssert(len(rw.writes) == nWriteFail, "not every frame was handed to the wire")
 	verifCover("done")
 }
+
+type c07StallFiller struct {
+	gate    chan struct{}
+	stalled bool
+	built   int
+}
+
+// the first Fill call stalls until the gate opens (one worker stuck in a slow build); every frame is
+// tagged with its request's port
+func (f *c07StallFiller) Fill(buf gopacket.SerializeBuffer, r *Request) error {
+	if !f.stalled {
+		f.stalled = true
+		<-f.gate
+	}
+	b, err := buf.PrependBytes(4)
+	if err != nil {
+		return err
+	}
+	b[0], b[1], b[2], b[3] = 0xB0, byte(r.DstPort>>8), byte(r.DstPort), 0x5A
+	f.built++
+	return nil
+}
+
+type c07GateRW struct {
+	gate   chan struct{}
+	writes []uint16
+	bad    int
+}
+
+func (w *c07GateRW) WritePacketData(pkt []byte) error {
+	<-w.gate // the wire is stalled until the gate opens
+	if len(pkt) != 4 || pkt[0] != 0xB0 || pkt[3] != 0x5A {
+		w.bad++
+		return nil
+	}
+	w.writes = append(w.writes, uint16(pkt[1])<<8|uint16(pkt[2]))
+	return nil
+}
+func (w *c07GateRW) ReadPacketData() ([]byte, *gopacket.CaptureInfo, error) { return nil, nil, io.EOF }
+
+// VerifH_C07_stalledWire: the wire is stalled while the generator stage runs far ahead (K frames, more than
+// every queue between generator and sender holds for ONE worker: 100 + workers*100), one of the N workers
+// stuck in a slow build meanwhile; then the wire opens: every frame built is written exactly once,
+// unaltered.  Concrete execution under the canonical schedule (regression guard, R8C07-a).
+func VerifH_C07_stalledWire() {
+	K := verifParam("K", 320)
+	N := verifParam("N", 2)
+	reqs := make(chan *Request, K)
+	for i := 1; i <= K; i++ {
+		reqs <- &Request{DstPort: uint16(i)}
+	}
+	close(reqs)
+	filler := &c07StallFiller{gate: make(chan struct{})}
+	rw := &c07GateRW{gate: make(chan struct{})}
+	ctx, cancel := context.WithCancel(context.Background())
+	defer cancel()
+	pkts := NewPacketMultiGenerator(filler, N).Packets(ctx, reqs)
+	done, errc := packet.NewSender(rw).SendPackets(ctx, pkts)
+	time.Sleep(time.Millisecond) // everything that can run ahead has run ahead
+	close(rw.gate)
+	time.Sleep(time.Millisecond)
+	close(filler.gate)
+	nerr := 0
+	for range errc {
+		nerr++
+	}
+	<-done
+	verifAssert(nerr == 0, "errors reported although nothing failed")
+	verifAssert(rw.bad == 0, "a frame on the wire is not one that was built (altered or empty)")
+	verifAssert(len(rw.writes) == K, "frames written differ in number from frames built (lost or duplicated)")
+	seen := make([]bool, K+1)
+	for _, id := range rw.writes {
+		if int(id) >= 1 && int(id) <= K {
+			verifAssert(!seen[id], "a frame was written twice")
+			seen[id] = true
+		} else {
+			verifAssert(false, "a frame on the wire is not one that was built")
+		}
+	}
+	verifCover("done")
+}
